@@ -4,6 +4,7 @@
 use std::io::{BufRead, Write};
 
 mod c02;
+mod c04;
 mod c08;
 pub mod util;
 
@@ -40,6 +41,7 @@ fn run_lines() {
             "chunks" => c08::chunks(&mut t),
             "range" => c08::range(&mut t),
             "book" => c02::book(&mut t),
+            "needs" => c04::needs(&mut t),
             _ => format!("ERR unknown-kind {kind}"),
         }));
         match res {
